@@ -107,6 +107,59 @@ func (p *Prog) blockDies(b *ssa.BasicBlock) bool {
 	return false
 }
 
+// reachesLiveFrom is reachesLive for control that enters `from` over the edge pred -> from, and it follows a
+// constant through a boolean join: a block that branches on a phi of its own takes, when entered over an edge
+// that carries a constant into that phi, only the matching side ("ok := a && b; if ok && c" compiles to this).
+func (p *Prog) reachesLiveFrom(pred, from, to *ssa.BasicBlock) bool {
+	type edge struct{ p, b *ssa.BasicBlock }
+	seen := map[edge]bool{}
+	var walk func(pr, b *ssa.BasicBlock) bool
+	walk = func(pr, b *ssa.BasicBlock) bool {
+		if b == to {
+			return true
+		}
+		if seen[edge{pr, b}] {
+			return false
+		}
+		seen[edge{pr, b}] = true
+		if p.blockDies(b) {
+			return false
+		}
+		succs := b.Succs
+		if iff, ok := b.Instrs[len(b.Instrs)-1].(*ssa.If); ok && pr != nil {
+			if phi, ok := iff.Cond.(*ssa.Phi); ok && phi.Block() == b {
+				onlyPhisBefore := true
+				for _, in := range b.Instrs[:len(b.Instrs)-1] {
+					switch in.(type) {
+					case *ssa.Phi, *ssa.DebugRef:
+					default:
+						onlyPhisBefore = false
+					}
+				}
+				for i, q := range b.Preds {
+					if q != pr || !onlyPhisBefore {
+						continue
+					}
+					if c, ok := phi.Edges[i].(*ssa.Const); ok && c.Value != nil && c.Value.Kind() == constant.Bool {
+						if constant.BoolVal(c.Value) {
+							succs = b.Succs[:1]
+						} else {
+							succs = b.Succs[1:2]
+						}
+					}
+				}
+			}
+		}
+		for _, s := range succs {
+			if walk(b, s) {
+				return true
+			}
+		}
+		return false
+	}
+	return walk(pred, from)
+}
+
 // reachesLive: can control flow from `from` reach `to` without passing through a block that dies?
 func (p *Prog) reachesLive(from, to *ssa.BasicBlock) bool {
 	seen := map[*ssa.BasicBlock]bool{}
@@ -907,10 +960,10 @@ func (a *panicAudit) sizeGuard(fn *ssa.Function, at *ssa.BasicBlock, lenOf func(
 			okTrue = k >= need
 		}
 		tS, fS := b.Succs[0], b.Succs[1]
-		if okTrue && !a.p.reachesLive(fS, at) {
+		if okTrue && !a.p.reachesLiveFrom(b, fS, at) {
 			return true, fmt.Sprintf("guarded by len %s %d (the other branch cannot reach the access)", bo.Op, k)
 		}
-		if okFalse && !a.p.reachesLive(tS, at) {
+		if okFalse && !a.p.reachesLiveFrom(b, tS, at) {
 			return true, fmt.Sprintf("guarded by !(len %s %d): the failing branch ends in a no-return call or return", bo.Op, k)
 		}
 	}
@@ -930,17 +983,23 @@ func (a *panicAudit) loopBound(fn *ssa.Function, at *ssa.BasicBlock, base, idx s
 				return bo.X, c
 			}
 		}
+		if bo, ok := v.(*ssa.BinOp); ok && bo.Op == token.SUB {
+			if c, ok := constInt(bo.Y); ok {
+				return bo.X, -c
+			}
+		}
 		return v, 0
 	}
 	iv, c := split(idx)
 	phi, ok := iv.(*ssa.Phi)
-	if !ok || c < 0 {
+	if !ok {
 		return false, ""
 	}
-	// induction: edges are a non-negative constant and phi + positive constant
+	// induction: edges are a non-negative constant and phi + positive constant; a negative offset (x[j-1] in a
+	// loop that starts at j = 1) is covered when the start value makes up for it
 	for _, e := range phi.Edges {
 		if k, ok := constInt(e); ok {
-			if k < 0 {
+			if k < 0 || k+c < 0 {
 				return false, ""
 			}
 			continue
@@ -948,6 +1007,46 @@ func (a *panicAudit) loopBound(fn *ssa.Function, at *ssa.BasicBlock, base, idx s
 		x, inc := split(e)
 		if x != ssa.Value(phi) || inc <= 0 {
 			return false, ""
+		}
+	}
+	// rotated loop ("for i := range len(x)"): the body is entered only over edges whose value e was just tested
+	// e < len(x), by the predecessor that carries it
+	if c <= 0 && phi.Block().Dominates(at) {
+		all := len(phi.Edges) > 0
+		for i, e := range phi.Edges {
+			pred := phi.Block().Preds[i]
+			iff, ok := pred.Instrs[len(pred.Instrs)-1].(*ssa.If)
+			if !ok || pred.Succs[0] != phi.Block() {
+				all = false
+				break
+			}
+			bo, ok := iff.Cond.(*ssa.BinOp)
+			if !ok || bo.Op != token.LSS {
+				all = false
+				break
+			}
+			same := bo.X == e
+			if k1, ok1 := constInt(bo.X); ok1 {
+				if k2, ok2 := constInt(e); ok2 && k1 == k2 {
+					same = true
+				}
+			}
+			lc, isCall := bo.Y.(*ssa.Call)
+			if !same || !isCall {
+				all = false
+				break
+			}
+			bi, isBi := lc.Common().Value.(*ssa.Builtin)
+			if !isBi || bi.Name() != "len" || accessPath(lc.Common().Args[0]) != bp {
+				all = false
+				break
+			}
+		}
+		if all {
+			if !a.noFieldWrites(fn, base) {
+				return false, "the indexed field is written in this function"
+			}
+			return true, fmt.Sprintf("the loop body is entered only with %s < len (tested on every edge into it); index is %s%+d, never negative", phi.Comment, phi.Comment, c)
 		}
 	}
 	for _, b := range fn.Blocks {
